@@ -132,7 +132,7 @@ pub fn gen_keyset(rng: &mut Rng, max: usize) -> Vec<Key> {
     let n = rng.below(max + 1);
     let mut keys: Vec<Key> = Vec::new();
     while keys.len() < n {
-        match rng.below(4) {
+        match rng.below(5) {
             0 => keys.push(rng.bytes32()),
             1 if !keys.is_empty() => {
                 let base = *rng.pick(&keys);
@@ -146,6 +146,34 @@ pub fn gen_keyset(rng: &mut Rng, max: usize) -> Vec<Key> {
                 let m = rng.range(1, 6);
                 for _ in 0..m {
                     keys.push(with_prefix(rng, &base, d));
+                }
+            }
+            3 => {
+                // nested deep forks: keys leaving one base key at depths that lie in different 64-bit
+                // words (terminal paths of very different lengths that agree on whole words), plus the
+                // exact boundary keys P·1·00…0 / P·0·11…1 of a prefix P
+                let base = rng.bytes32();
+                keys.push(base);
+                let mut d = rng.range(1, 40);
+                for _ in 0..rng.range(2, 4) {
+                    if d > 254 {
+                        break;
+                    }
+                    keys.push(diverge_at(rng, &base, d));
+                    d += rng.range(40, 90);
+                }
+                let pd = interesting_depth(rng).min(250);
+                let mut lo = base;
+                let mut hi = base;
+                set_bit(&mut lo, pd, false);
+                set_bit(&mut hi, pd, true);
+                for i in pd + 1..256 {
+                    set_bit(&mut lo, i, true);
+                    set_bit(&mut hi, i, false);
+                }
+                if rng.chance(1, 2) {
+                    keys.push(lo);
+                    keys.push(hi);
                 }
             }
             _ => {
